@@ -23,13 +23,13 @@ import (
 // ---- recording cache implementing the documented contract, with fault hooks
 
 type recCache struct {
-	mu       sync.Mutex
-	m        map[string]caching.Item
-	sets     [][]caching.Item // every SetMany call
-	gets     int
-	hits     int
-	failGet  bool
-	failSet  bool
+	mu      sync.Mutex
+	m       map[string]caching.Item
+	sets    [][]caching.Item // every SetMany call
+	gets    int
+	hits    int
+	failGet bool
+	failSet bool
 }
 
 func newCache() *recCache { return &recCache{m: map[string]caching.Item{}} }
@@ -106,12 +106,16 @@ type step struct {
 }
 
 var opAlphabet = []string{
-	`{users {reviews {body}}}`,          // batch u1,u2,u3 (u3's reviews contain a non-null null -> subgraph error)
-	`{me {reviews {body}}}`,             // u1: overlapping representation set, same selection
-	`{users {reviews {stars}}}`,         // same entities, different selection
+	`{users {reviews {body}}}`,  // batch u1,u2,u3 (u3's reviews contain a non-null null -> subgraph error)
+	`{me {reviews {body}}}`,     // u1: overlapping representation set, same selection
+	`{users {reviews {stars}}}`, // same entities, different selection
 	`{user(id: "u2") {reviews {body} greeting}}`,
-	`{users {greeting(times: 2)}}`,      // argument value
-	`{users {greeting}}`,                // same field, other argument value
+	`{users {greeting(times: 2)}}`, // argument value
+	`{users {greeting}}`,           // same field, other argument value
+	`{users {greeting(times: 3)}}`, // same operation after variable extraction, same entities, another value of the extracted variable
+	// a batch that is served completely from the cache (no null entity in it): u3's friends are [u1, null]
+	`{user(id: "u3") {friends {greeting(times: 2)}}}`,
+	`{user(id: "u3") {friends {greeting(times: 3)}}}`,
 	`{me {friends {reviews {body}} favorite {title}}}`, // u2,u1 through another path + Product entity
 	`{me {friends {reviews {stars}}}}`,                 // (u2,u1): covered by the keys of the users batch; u2 is a null entity in sg1
 }
